@@ -13,19 +13,19 @@ CLAIMS = {
    design="4/C01"),
  "C02": dict(
    technique="structural order-preservation rules on SSA: forward child loops, who-writes/how-writes rule for the sequence-carrying fields (append-to-self / shift-left delete idiom only), disjoint-window rule for the text builder, loop transition extraction of the emitters, must-pass-through of flushBlock",
-   text="Decides that no step between the document-order walk and the concatenated output can reorder or duplicate: children are visited and attached first-to-last, the five sequence fields are only appended to or shrunk by the shift-left idiom and never sorted or overwritten, each Text gets a disjoint window of the collected nodes, emitters walk forward and skip exactly non-content elements, non-text elements flush pending text first, and captions/table text are rendered from the clone by the visibility-aware renderer. Not decided: which words are selected, and fabrication inside third-party code.",
+   text="Decides that no step between the document-order walk and the concatenated output can reorder or duplicate: children are visited and attached first-to-last, the five sequence fields are only appended to or shrunk by the shift-left idiom and never sorted or overwritten, each Text gets a disjoint window of the collected nodes, emitters walk forward and skip exactly non-content elements, non-text elements flush pending text first, captions/table text are rendered from the clone by the visibility-aware renderer, and the visibility predicate is the documented decision list. Not decided: which words are selected, and fabrication inside third-party code.",
    design="4/C02"),
  "C03": dict(
    technique="sibling-iteration loop discovery on SSA + effect summaries (PEA, callbacks closed over the call graph) for iterator invalidation; table extraction for inline-tag handling; who-writes rule for the flush flag; loop transition extraction for ApplyToModel",
-   text="Decides the structural causes by which a simple paragraph could be cut: (I1) no sibling walk anywhere in the analysed program can have its cursor's link rewritten by a call made before the cursor advances (the WalkNodes defect class), (I2) the nine simple inline tags are inline, never flush or label a block, are never dropped unconditionally, and only SkipNode/StartNode raise the flush flag, (I3) a content block marks every one of its Text elements. Not decided: the classifier's content decision itself.",
+   text="Decides the structural causes by which a simple paragraph could be cut: (I1) no sibling walk anywhere in the analysed program can have its cursor's link rewritten by a call made before the cursor advances (the WalkNodes defect class), (I2) the nine simple inline tags are inline, never flush or label a block, are never dropped unconditionally, and only SkipNode/StartNode raise the flush flag, (I3) a content block marks every one of its Text elements, (I4) the element visitor never skips an inline element except for a decision on its own attributes or visibility, and the javascript: anchor rewrite hands over the whole (single text) content, (I5) the builder acts on the action of the very element it is given, (I6) output post-processing never restructures the clone. Not decided: the classifier's content decision itself.",
    design="4/C03"),
  "C04": dict(
    technique="path enumeration of the converter's element visitor with builder calls as events (visibility gate dominance), decision-list conformance of IsProbablyVisible / InnerText / the clone visitor / the node dispatcher, switch-table extraction for the skip list, reviewed table of wholesale copies",
-   text="Decides that every route from source nodes to output is gated: nothing is admitted by the main walk, by the table/caption/embed cloner or by the text renderer unless the element was tested probably-visible (and is not script/style) first, on every path; the predicate looks at exactly the four documented signals with inline display overriding tag defaults; the listed non-reading tags are never walked; captions picked from the page are visibility-checked up to their figure. Not decided: CSS the port cannot see and the regex semantics.",
+   text="Decides that every route from source nodes to output is gated: nothing is admitted by the main walk, by the table/caption/embed cloner or by the text renderer unless the element was tested probably-visible (and is not script/style) first, on every path; the predicate looks at exactly the four documented signals with inline display overriding tag defaults; the listed non-reading tags are never walked; captions picked from the page are visibility-checked up to their figure; an inline display value is compared in lower case; what the image extractor stores as an Image/Figure element (deep-cloned later without filtering) is a fresh element, decided not to be a picture, or a picture pruned to img/source on every path. Not decided: CSS the port cannot see and the regex semantics.",
    design="4/C04"),
  "C05": dict(
    technique="sibling-agreement dataflow rule over all Element.GenerateOutput implementations (same-SSA-value strip-before-serialise with helper/field summaries, must-pass-through on the CFG), literal allow-list extraction, decision-list conformance of the clone visitor",
-   text="Decides for every element kind and every path that whatever reaches dom.OuterHTML/InnerHTML has passed StripAttributes as the same value (or comes from a helper/field that always strips, or is the distiller's own placeholder wrapper with stripped children), that nothing is added afterwards, that the allow-list has no on* attribute and id/class/style are always dropped for root and descendants, and that script/style and hidden nodes cannot enter wholesale clones or the main walk. Not decided: the serializer and attribute values.",
+   text="Decides for every element kind and every path that whatever reaches dom.OuterHTML/InnerHTML has passed StripAttributes as the same value (or comes from a helper/field that always strips, or is the distiller's own placeholder wrapper with stripped children), that nothing is added afterwards, that the allow-list has no on* attribute and id/class/style are always dropped for root and descendants, that every element visited by StripAttributes gets its list replaced and an attribute is kept only after a positive allow-list lookup, and that script/style and hidden nodes cannot enter wholesale clones, pictures or the main walk. Not decided: the serializer and attribute values.",
    design="4/C05"),
  "C06": dict(
    technique="field-initialisation completeness over composite literals, same-SSA-value absolutise-before-serialise rule with helper/field summaries, constant coverage extraction, decision-list conformance of CreateAbsoluteURL, writer/reader tokeniser agreement, PEA for the stability of the base URL",
@@ -33,11 +33,11 @@ CLAIMS = {
    design="4/C06"),
  "C07": dict(
    technique="path enumeration of the converter visitor with emission events (balanced start/end placeholders), CanBeNested table extraction, loop transition-function extraction of the retainer, clone-as-unit and append-only rules",
-   text="Decides the structural necessary conditions of nesting preservation: start and end placeholders are emitted under the same predicate application with the node's own tag name; a nestable element that got its start tag is always walked so its end tag follows; tags are never renamed across the nestable boundary; the retainer's per-element transition (boolean part) is the documented one; data tables are stored, cloned and serialised as one unit from an append-only node list; text rooted at a nestable element emits inner HTML. Not decided: the retainer's integer stack-mark logic and HTML re-parsing.",
+   text="Decides the structural necessary conditions of nesting preservation: start and end placeholders are emitted under the same predicate application with the node's own tag name; a nestable element that got its start tag is always walked so its end tag follows; tags are never renamed across the nestable boundary; the stack pass is the last filter to change content flags; the retainer's per-element transition (boolean part) is the documented one; data tables are stored, cloned and serialised as one unit from an append-only node list; text rooted at a nestable element emits inner HTML. Not decided: the retainer's integer stack-mark logic and HTML re-parsing.",
    design="4/C07"),
  "C08": dict(
    technique="loop transition-function extraction (one iteration of RelevantElements.Process as a decision list over boolean loop state) + call ordering (must-pass-through) + layering (who-may-call) + loop/promotion rules",
-   text="Decides that the retention automaton for non-text elements is exactly: content element opens a run, dropped text closes it, any other element is retained iff the run is open; that the filters run in the fixed order after text classification; that the lead-image promotion is a single SetIsContent(true) outside loops over candidates that are dropped images/figures before the last retained text; and that nobody else writes the content flag. This is the structural form of 'retained iff the nearest preceding text block is retained, plus at most one lead image'. Not decided: scorer arithmetic and the classifier's choice of text blocks.",
+   text="Decides that the retention automaton for non-text elements is exactly: content element opens a run, dropped text closes it, any other element is retained iff the run is open; that the filters run in the fixed order after text classification; that the lead-image promotion is a single SetIsContent(true) outside loops over candidates that are dropped images/figures before the last retained text; that elements enter the document after the text that precedes them (flush before append); and that nobody else writes the content flag. This is the structural form of 'retained iff the nearest preceding text block is retained, plus at most one lead image'. Not decided: scorer arithmetic and the classifier's choice of text blocks.",
    design="4/C08"),
  "C09": dict(
    technique="single-source rule per GenerateOutput implementation (text and HTML return values traced to the same SSA value/field), canonical-expression checks of Apply's result stores, loop transition extraction of Document.GenerateOutput, decision-list conformance of ExtractContent",
@@ -49,7 +49,7 @@ CLAIMS = {
    design="3.1, 4/C10"),
  "C11": dict(
    technique="exhaustive enumeration and structural classification of map-range loops (loop transition extraction), reviewed-exception table with machine-checked lemmas, scans for nondeterminism sources with a forward slice of clock values, PEA for state surviving a call, decision-list conformance of the delegating entry points",
-   text="Decides that module code contains no source of run-to-run variation: every map iteration is order-insensitive by construction (insert-only, constant-exit scan, collect-then-sort) or a reviewed entry whose supporting lemma is re-checked; no goroutines, randomness, environment or pointer values; clock values flow only into timing data; nothing written during a call survives it or changes its inputs; ApplyForReader/ApplyForFile only parse/open and delegate. One loop (tie-break between equally good pagination patterns) is a reviewed exception that is not proven order-independent.",
+   text="Decides that module code contains no source of run-to-run variation: every map iteration is order-insensitive by construction (insert-only, constant-exit scan, collect-then-sort) or a reviewed entry whose supporting lemma is re-checked; no goroutines, randomness, environment or pointer values; clock values flow only into timing data; nothing written during a call survives it or changes its inputs; ApplyForReader/ApplyForFile only parse/open and delegate. The one loop that used to be a reviewed-but-unproven exception (tie-break between equally good pagination patterns) turned out to be a genuine defect and was repaired (candidates are now visited in sorted order).",
    design="4/C11"),
  "C12": dict(
    technique="provenance & effects analysis for writes to package-level state + caller arguments; scan for goroutines/channels/sync in module code; import scan",
@@ -57,31 +57,31 @@ CLAIMS = {
    design="4/C12"),
  "C13": dict(
    technique="control-dependence regions of log-flag branches checked with PEA effect summaries (write-only log regions, no value merged back), path enumeration of Apply with result stores as events, use-only-as-condition rules",
-   text="Decides non-interference of the options structurally: log-flag predicates only steer branches whose regions neither store outside region-local memory/reviewed debug maps nor call anything with effects nor feed values back; in Apply the PaginationInfo store happens exactly under !SkipPagination && URL != nil, URL is OriginalURL.String() exactly when non-nil, all other fields are filled on all successful paths from option-independent expressions, no other branch exists, and the finders leave document and URL untouched.",
+   text="Decides non-interference of the options structurally: log-flag predicates only steer branches whose regions neither store outside region-local memory/reviewed debug maps nor call anything with effects nor feed values back; in Apply the PaginationInfo store happens exactly under !SkipPagination && URL != nil, URL is OriginalURL.String() exactly when non-nil, all other fields are filled on all successful paths from option-independent expressions, no other branch exists, the finders leave document and URL untouched, modelled standard-library mutators inside log regions work on region-local data only, and nothing below the entry points writes the Options or the URL they point to.",
    design="4/C13"),
  "C14": dict(
    technique="static decision-list extraction + guard-cut/ordering rules on SSA (accessor order, OpenGraph gate, first-non-empty getters, opt-out dominance, field/getter agreement)",
-   text="Decides the combinator skeleton of the metadata precedence for all inputs: accessor list order [OpenGraph only if complete, schema.org, IE], each getter returns the first non-empty answer of the same-named accessor method, opt-out yields the zero record, and each record field is filled from the same-named source. Not decided: what each of the three parsers extracts from a document.",
+   text="Decides the combinator skeleton of the metadata precedence for all inputs: accessor list order [OpenGraph only if complete, schema.org, IE], each getter returns the first non-empty answer of the same-named accessor method, opt-out yields the zero record, each record field is filled from the same-named source, and Apply stores the record whole and never patches a field of it. Not decided: what each of the three parsers extracts from a document.",
    design="4/C14"),
  "C19": dict(
    technique="decision-list conformance of HasRootDomain + guard-cut dominance of every webdoc.Embed construction by the host test + constant allow-list extraction + converter switch table",
-   text="Decides that an embed placeholder can only be constructed on paths where the parsed host of the tested URL equals an allow-listed root or ends with '.'+root, that the roots are exactly the four documented ones paired with the right service name, that the id is computed from the tested URL, that the placeholder is rendered through the DOM serializer, and that unrecognised iframe/object/embed elements fall into a dropping clause. Not decided: id/params parsing.",
+   text="Decides that an embed placeholder can only be constructed on paths where the parsed host of the tested URL equals an allow-listed root or ends with '.'+root, that the roots are exactly the four documented ones paired with the right service name, that the id is computed from the tested URL, that the placeholder is rendered through the DOM serializer, that unrecognised iframe/object/embed elements fall into a dropping clause, that frames nested in an embedded element or in a picture are removed before the clone reaches the output, and that the stored id is the last non-empty path segment of the tested URL (not embed/video) or the tweet-id attribute. Not decided: query parameter parsing.",
    design="4/C19"),
  "C20": dict(
    technique="decision-list conformance of ExtractContent with path-resolved phis; structural checks of the per-pass construction; guard-cut of the flag-dependent skips in the converter; global-reader scan",
-   text="Decides the two-pass skeleton: pruning pass first, second pass with Default iff the first yields <= 499 words, document and count from the same pass; each pass uses fresh builder/converter over a deep clone; the flag-dependent skips are guarded by the complete documented exemptions and the patterns are used nowhere else. Not decided: the metamorphic equalities themselves.",
+   text="Decides the two-pass skeleton: pruning pass first, second pass with Default iff the first yields <= 499 words, document and count from the same pass; each pass uses fresh builder/converter over a deep clone; the flag-dependent skips are guarded by the complete documented exemptions (the ancestor test climbs to the root) and the patterns are used nowhere else; no other class/id test of the content packages reacts to a marker word of the unlikely pattern (two overlaps exist on the current tree and are listed known findings: the comment-section rule and the socialArea skip). Not decided: the metamorphic equalities themselves, and pagination (which reads class names of the original document).",
    design="4/C20"),
  "C15": dict(
    technique="decision-list conformance of the title candidate list, string-provenance walk over SSA for getDocumentTitle's results, belief rule (looked-up key must be inserted) and normalisation-chain agreement between the two sides of the title matcher, guard-cut for the title suppression",
-   text="Decides that the markup title (when present) is candidate 0 and is what Result.Title reports; that the heuristic title can only consist of <title>/<h1> text cut by substring-preserving operations, with a character-counted 15..150 gate that leaves a plain title untouched; that the whole normalised title is registered as a potential title and blocks are normalised by the same chain; and that a block labelled as title renders empty in both views. Not decided: which separator-delimited part of a long title is chosen.",
+   text="Decides that the markup title (when present) is candidate 0 and is what Result.Title reports; that the heuristic title can only consist of <title>/<h1> text cut by substring-preserving operations, with a character-counted 15..150 gate that leaves a plain title untouched; that the whole normalised title is registered as a potential title and blocks are normalised by the same chain; that a block labelled as title renders empty in both views; and that whoever receives the candidate list while the extractor holds it only reads it. Not decided: which separator-delimited part of a long title is chosen.",
    design="4/C15"),
  "C16": dict(
    technique="sink sanitisation by guard-cut (candidate admission in PrevNext), decision-path enumeration with URL stores as events (validators of numbered links, PrevPage/NextPage sinks), exhaustive classification of every PageInfo.URL / NextPagingURL writer in the module",
-   text="Decides that every URL that can reach NextPage/PrevPage is \"\", or the normalised absolute href of an anchor that passed the parse + scheme://host/ prefix test (PrevNext) resp. parse + host equality + http(s) scheme (PageNumber), or a copy of such a URL; the only other source (the current document's own URL inserted by the detector) is filtered by a normalised comparison before PrevPage is set. Not decided: that the link is the right page (C17) and port/case subtleties of host comparison.",
+   text="Decides that every URL that can reach NextPage/PrevPage is \"\", or the normalised absolute href of an anchor that passed the parse + scheme://host/ prefix test (PrevNext) resp. parse + host equality + http(s) scheme (PageNumber), or a copy of such a URL; the only other source (the current document's own URL inserted by the detector) is filtered by a normalised comparison before PrevPage is set; both finders are given the caller's Options.OriginalURL itself. Not decided: that the link is the right page (C17) and port/case subtleties of host comparison.",
    design="4/C16"),
  "C18": dict(
    technique="static decision-list extraction from SSA (normalised branch paths) compared with the documented cascade; literal-table key sets; guard-cut reachability",
-   text="Decides, for every path through Classifier.Classify / getDirectDescendants and the converter's table case, that the branch structure equals the documented ordered cascade (order, thresholds, operands, tables, outcomes). Holds for all inputs because it is a statement about the code's decision structure, not about sampled tables. Not decided: row/column counting arithmetic and text validity helpers.",
+   text="Decides, for every path through Classifier.Classify / getDirectDescendants and the converter's table case, that the branch structure equals the documented ordered cascade (order, thresholds, operands, tables by content, outcomes), and that the converter walks into a table only after the classifier said it is not a data table. Holds for all inputs because it is a statement about the code's decision structure, not about sampled tables. Not decided: row/column counting arithmetic and text validity helpers.",
    design="4/C18"),
 }
 NA = {
